@@ -687,6 +687,9 @@ def canon(repo, rel, func, keep=(), depth=2, unroll=True):
     to the canonical forms the rules are written against"""
     new = inline_helpers(repo, rel, func, depth=depth, keep=keep)
     parent = getattr(new, "parent", None)
+    ft = _FillToSlice()
+    ft._top = None
+    new = ft.visit(new)
     new = _ifexp_to_if(new)
     new = _hoist_walrus(new)
     new = _named_conditions(new)
@@ -943,3 +946,32 @@ def expand_ref_locals(func):
     link(new)
     new.parent = getattr(func, "parent", None)
     return new
+
+
+class _FillToSlice(ast.NodeTransformer):
+    """``X.fill(c)`` / ``X[...] = c`` -> ``X[:] = c``"""
+
+    def visit_FunctionDef(self, node):
+        if getattr(self, "_top", None) is None:
+            self._top = node
+            self.generic_visit(node)
+        return node
+
+    def visit_Expr(self, node):
+        c = node.value
+        if isinstance(c, ast.Call) and isinstance(c.func, ast.Attribute) \
+                and c.func.attr == "fill" and len(c.args) == 1 \
+                and not c.keywords and _pure_ref(c.func.value):
+            return ast.copy_location(ast.Assign(
+                targets=[ast.Subscript(
+                    value=c.func.value,
+                    slice=ast.Slice(lower=None, upper=None, step=None),
+                    ctx=ast.Store())], value=c.args[0]), node)
+        return node
+
+    def visit_Assign(self, node):
+        for t in node.targets:
+            if isinstance(t, ast.Subscript) and isinstance(
+                    t.slice, ast.Constant) and t.slice.value is Ellipsis:
+                t.slice = ast.Slice(lower=None, upper=None, step=None)
+        return node
